@@ -705,8 +705,7 @@ Proof. intros. reflexivity. Qed.
 
 Definition waits_after (tid : nat) (e : ev) (rest_before : bool) (ws : list (nat * nat))
   : list (nat * nat) :=
-  let waits0 := map (fun p => if Nat.eqb (fst p) tid && rest_before
-                              then (fst p, S (snd p)) else (fst p, O)) ws in
+  let waits0 := map (wait_tick tid rest_before) ws in
   match e with
   | ECall CWait => (tid, O) :: waits0
   | ERet CWait _ => filter (fun p => negb (Nat.eqb (fst p) tid)) waits0
@@ -723,44 +722,128 @@ Proof.
   intro p. unfold at_rest. destruct (adds_in_flight p); simpl; split; intro H; auto; discriminate.
 Qed.
 
-(* a thread inside Wait has an entry whose counter bounds its run of solo steps at rest *)
+Lemma wait_tick_fst : forall tid b p, fst (wait_tick tid b p) = fst p.
+Proof.
+  intros tid b p. unfold wait_tick. destruct b; [|reflexivity].
+  destruct (Nat.eqb (fst p) tid); reflexivity.
+Qed.
+
+(* a thread inside Wait has an entry whose counter is at least the number of its own steps at
+   rest (every trace) *)
 Lemma waits_bound : forall t tid, in_call t tid = Some CWait ->
-  exists n, In (tid, n) (q_waits (mon2_of t)) /\ forall k, solo_rest t tid k -> (k <= n)%nat.
+  exists n, In (tid, n) (q_waits (mon2_of t)) /\ (rest_steps t tid <= n)%nat.
 Proof.
   induction t as [|it t IH]; intros tid Hin; [discriminate Hin|].
-  rewrite q_waits_unfold. rewrite in_call_cons in Hin.
-  set (f := fun p : nat * nat =>
-              if Nat.eqb (fst p) (it_tid it) && is_nil (adds_in_flight t)
-              then (fst p, S (snd p)) else (fst p, O)).
+  rewrite q_waits_unfold. rewrite in_call_cons in Hin. cbn [rest_steps].
+  set (b := is_nil (adds_in_flight t)).
   destruct (Nat.eqb_spec (it_tid it) tid) as [Et|Nt].
   - (* an item of the thread itself *)
     destruct (it_ev it) as [c|c r| |] eqn:Ev; try discriminate Hin.
     + inversion Hin; subst c. exists O. unfold waits_after. rewrite Et. split; [left; reflexivity|].
-      intros [|k] Hk; [lia|]. simpl in Hk. destruct Hk as (_ & E & _). congruence.
+      destruct b; lia.
     + destruct (IH tid Hin) as (n & Hn & Hb).
-      destruct (is_nil (adds_in_flight t)) eqn:R.
-      * exists (S n). unfold waits_after. split.
-        -- apply in_map_iff. exists (tid, n). split; auto. simpl. rewrite Et, Nat.eqb_refl. reflexivity.
-        -- intros [|k] Hk; [lia|]. simpl in Hk. destruct Hk as (_ & _ & _ & Hk). specialize (Hb _ Hk). lia.
-      * exists O. unfold waits_after. split.
-        -- apply in_map_iff. exists (tid, n). split; auto. simpl. rewrite andb_false_r. reflexivity.
-        -- intros [|k] Hk; [lia|]. simpl in Hk. destruct Hk as (_ & _ & Hr & _).
-           apply at_rest_is_nil in Hr. congruence.
+      exists (snd (wait_tick (it_tid it) b (tid, n))). unfold waits_after. split.
+      * apply in_map_iff. exists (tid, n). split; auto.
+        rewrite (surjective_pairing (wait_tick (it_tid it) b (tid, n))) at 1.
+        rewrite wait_tick_fst. reflexivity.
+      * unfold wait_tick. cbn [fst snd]. destruct b; [|lia].
+        destruct (Nat.eqb_spec tid (it_tid it)) as [_|N]; [|congruence]. cbn [snd]. lia.
     + destruct (IH tid Hin) as (n & Hn & Hb).
-      exists (snd (f (tid, n))). unfold waits_after. split.
-      * apply in_map_iff. exists (tid, n). split; auto. unfold f. simpl.
-        destruct (Nat.eqb tid (it_tid it) && is_nil (adds_in_flight t)); reflexivity.
-      * intros [|k] Hk; [lia|]. simpl in Hk. destruct Hk as (_ & E & _). congruence.
+      exists (snd (wait_tick (it_tid it) b (tid, n))). unfold waits_after. split.
+      * apply in_map_iff. exists (tid, n). split; auto.
+        rewrite (surjective_pairing (wait_tick (it_tid it) b (tid, n))) at 1.
+        rewrite wait_tick_fst. reflexivity.
+      * destruct b; lia.
   - (* an item of another thread *)
-    destruct (IH tid Hin) as (n & Hn & _). exists O. split.
-    + assert (H0 : In (tid, O) (map f (q_waits (mon2_of t)))).
-      { apply in_map_iff. exists (tid, n). split; auto. unfold f. simpl.
-        destruct (Nat.eqb_spec tid (it_tid it)) as [E|_]; [congruence|]. reflexivity. }
-      unfold waits_after. fold f. destruct (it_ev it) as [c|c r| |]; auto.
+    destruct (IH tid Hin) as (n & Hn & Hb).
+    exists (snd (wait_tick (it_tid it) b (tid, n))). split.
+    + assert (H0 : In (tid, snd (wait_tick (it_tid it) b (tid, n)))
+                      (map (wait_tick (it_tid it) b) (q_waits (mon2_of t)))).
+      { apply in_map_iff. exists (tid, n). split; auto.
+        rewrite (surjective_pairing (wait_tick (it_tid it) b (tid, n))) at 1.
+        rewrite wait_tick_fst. reflexivity. }
+      unfold waits_after. destruct (it_ev it) as [c|c r| |]; auto.
       * destruct c; auto. right; auto.
-      * destruct c; auto. apply filter_In. split; auto. simpl.
+      * destruct c; auto. apply filter_In. split; auto. cbn [fst].
         destruct (Nat.eqb_spec tid (it_tid it)) as [E|_]; [congruence|]. reflexivity.
-    + intros [|k] Hk; [lia|]. simpl in Hk. destruct Hk as (E & _). congruence.
+    + unfold wait_tick. cbn [fst snd]. destruct b; [|lia].
+      destruct (Nat.eqb_spec tid (it_tid it)) as [E|_]; [congruence|]. cbn [snd]. exact Hb.
+Qed.
+
+(* conversely, on a well-formed trace every entry belongs to a thread inside Wait and its
+   counter is at most that thread's number of own steps at rest *)
+Lemma waits_exact : forall t, trace_wf t = true ->
+  forall tid n, In (tid, n) (q_waits (mon2_of t)) ->
+    in_call t tid = Some CWait /\ (n <= rest_steps t tid)%nat.
+Proof.
+  induction t as [|it t IH]; intros Hwf tid n Hin; [destruct Hin|].
+  cbn [trace_wf] in Hwf. apply andb_true_iff in Hwf. destruct Hwf as [Hwf Hit].
+  specialize (IH Hwf).
+  rewrite q_waits_unfold in Hin. rewrite in_call_cons. cbn [rest_steps].
+  set (b := is_nil (adds_in_flight t)) in *.
+  (* an entry that comes from an older entry *)
+  assert (Hold : In (tid, n) (map (wait_tick (it_tid it) b) (q_waits (mon2_of t))) ->
+                 (it_tid it = tid -> it_ev it = ETau) ->
+                 (if Nat.eqb (it_tid it) tid
+                  then match it_ev it with
+                       | ECall c => Some c | ERet _ _ => None | _ => in_call t tid end
+                  else in_call t tid) = Some CWait /\
+                 (n <= (if b then
+                          if Nat.eqb (it_tid it) tid
+                          then match it_ev it with ETau => S (rest_steps t tid) | _ => O end
+                          else rest_steps t tid
+                        else O))%nat).
+  { intros Hm Htau. apply in_map_iff in Hm. destruct Hm as ((tid0 & n0) & E & H0).
+    destruct (IH _ _ H0) as (Hc & Hn).
+    assert (tid0 = tid).
+    { pose proof (wait_tick_fst (it_tid it) b (tid0, n0)) as F. rewrite E in F. cbn in F. auto. }
+    subst tid0. unfold wait_tick in E. cbn [fst snd] in E.
+    destruct (Nat.eqb_spec (it_tid it) tid) as [Et|Nt].
+    - rewrite (Htau Et). split; [exact Hc|].
+      destruct b; [|inversion E; lia].
+      destruct (Nat.eqb_spec tid (it_tid it)) as [_|N]; [|congruence]. inversion E. lia.
+    - split; [exact Hc|]. destruct b; [|inversion E; lia].
+      destruct (Nat.eqb_spec tid (it_tid it)) as [E'|_]; [congruence|]. inversion E. subst. exact Hn. }
+  (* what well-formedness says about an item of a thread that has an older entry *)
+  assert (Hself : forall n0, In (tid, n0) (q_waits (mon2_of t)) -> it_tid it = tid ->
+                  it_ev it = ETau \/ exists r, it_ev it = ERet CWait r).
+  { intros n0 H0 Et. destruct (IH _ _ H0) as (Hc & _). rewrite Et, Hc in Hit.
+    destruct (it_ev it) as [c|c r| |]; try discriminate Hit; auto.
+    right. apply andb_true_iff in Hit. destruct Hit as [Hs _]. destruct c; try discriminate Hs.
+    exists r. reflexivity. }
+  unfold waits_after in Hin.
+  destruct (it_ev it) as [c|c r| |] eqn:Ev.
+  - destruct c.
+    + apply Hold; auto. intro Et. exfalso.
+      apply in_map_iff in Hin. destruct Hin as ((tid0 & n0) & E & H0).
+      pose proof (wait_tick_fst (it_tid it) b (tid0, n0)) as F. rewrite E in F. cbn in F. subst tid0.
+      destruct (Hself _ H0 Et) as [H|(r & H)]; discriminate H.
+    + destruct Hin as [E|Hin].
+      * inversion E; subst. rewrite Nat.eqb_refl. split; [reflexivity|lia].
+      * apply Hold; auto. intro Et. exfalso.
+        apply in_map_iff in Hin. destruct Hin as ((tid0 & n0) & E & H0).
+        pose proof (wait_tick_fst (it_tid it) b (tid0, n0)) as F. rewrite E in F. cbn in F. subst tid0.
+        destruct (Hself _ H0 Et) as [H|(r & H)]; discriminate H.
+    + apply Hold; auto. intro Et. exfalso.
+      apply in_map_iff in Hin. destruct Hin as ((tid0 & n0) & E & H0).
+      pose proof (wait_tick_fst (it_tid it) b (tid0, n0)) as F. rewrite E in F. cbn in F. subst tid0.
+      destruct (Hself _ H0 Et) as [H|(r & H)]; discriminate H.
+  - destruct c.
+    + apply Hold; auto. intro Et. exfalso.
+      apply in_map_iff in Hin. destruct Hin as ((tid0 & n0) & E & H0).
+      pose proof (wait_tick_fst (it_tid it) b (tid0, n0)) as F. rewrite E in F. cbn in F. subst tid0.
+      destruct (Hself _ H0 Et) as [H|(r' & H)]; discriminate H.
+    + apply filter_In in Hin. destruct Hin as [Hin Hf]. cbn [fst] in Hf.
+      apply Hold; auto. intro Et. exfalso. rewrite Et, Nat.eqb_refl in Hf. discriminate Hf.
+    + apply Hold; auto. intro Et. exfalso.
+      apply in_map_iff in Hin. destruct Hin as ((tid0 & n0) & E & H0).
+      pose proof (wait_tick_fst (it_tid it) b (tid0, n0)) as F. rewrite E in F. cbn in F. subst tid0.
+      destruct (Hself _ H0 Et) as [H|(r' & H)]; discriminate H.
+  - apply Hold; auto.
+  - apply Hold; auto. intro Et. exfalso.
+    apply in_map_iff in Hin. destruct Hin as ((tid0 & n0) & E & H0).
+    pose proof (wait_tick_fst (it_tid it) b (tid0, n0)) as F. rewrite E in F. cbn in F. subst tid0.
+    destruct (Hself _ H0 Et) as [H|(r & H)]; discriminate H.
 Qed.
 
 Lemma q_ok_older : forall it t, q_ok (mon2_of (it :: t)) = true -> q_ok (mon2_of t) = true.
@@ -798,7 +881,61 @@ Proof.
            assert (existsb (Nat.eqb x) (snd (it_obs it)) = true).
            { apply existsb_exists. exists x. split; auto. apply Nat.eqb_refl. }
            congruence.
-      * intros tid Hin Hsolo. destruct (waits_bound _ _ Hin) as (n & Hn & Hb).
+      * intros tid Hin. destruct (waits_bound _ _ Hin) as (n & Hn & Hb).
         rewrite forallb_forall in Q4. specialize (Q4 _ Hn). simpl in Q4. apply Nat.ltb_lt in Q4.
-        specialize (Hb _ Hsolo). lia.
+        lia.
 Qed.
+
+(* ================================================================ and conversely (exactness)
+   for well-formed traces the declarative statement implies acceptance by the monitor *)
+Lemma c02_spec_older : forall it t, c02_spec (it :: t) -> c02_spec t.
+Proof.
+  intros it t H u it0 Hu. pose proof (item_at_lt _ _ _ Hu) as L.
+  specialize (H u it0). rewrite item_at_old in H by exact L. specialize (H Hu).
+  rewrite prefix_upto_cons in H. destruct (Nat.ltb_spec u (length t)); [|lia]. exact H.
+Qed.
+
+Theorem c02_spec_ok : forall t, trace_wf t = true -> c02_spec t -> c02_ok t = true.
+Proof.
+  unfold c02_ok. induction t as [|it t IH]; intros Hwf Hs; [reflexivity|].
+  pose proof Hwf as Hwf'. cbn [trace_wf] in Hwf'. apply andb_true_iff in Hwf'. destruct Hwf' as [Hwft _].
+  specialize (IH Hwft (c02_spec_older _ _ Hs)).
+  specialize (Hs (length t) it (item_at_new it t)).
+  rewrite prefix_upto_cons, Nat.ltb_irrefl in Hs. cbv zeta in Hs.
+  destruct Hs as (Hp & Hr & Hw).
+  rewrite q_ok_unfold, IH. cbn [andb].
+  replace (match it_ev it with ERet _ RPanic => false | _ => true end) with true.
+  2:{ destruct (it_ev it) as [c|c r| |]; auto. destruct r; auto. exfalso. apply (Hp c). reflexivity. }
+  cbn [andb].
+  destruct (is_nil (adds_in_flight (it :: t))) eqn:R.
+  - apply at_rest_is_nil in R. destruct (Hr R) as (H1 & H2 & H3).
+    cbn [implb andb]. rewrite H1, Z.eqb_refl. cbn [andb].
+    assert (Q2 : implb (sum_deltas (it :: t) =? 0)
+                   (forallb (fun x => memb x (snd (it_obs it))) (handed_out (it :: t))) = true).
+    { destruct (Z.eqb_spec (sum_deltas (it :: t)) 0) as [Z0|Z0]; [|reflexivity]. cbn [implb].
+      apply forallb_forall. intros x Hx. unfold memb. apply existsb_exists. exists x.
+      split; [apply H2; auto|apply Nat.eqb_refl]. }
+    rewrite Q2. cbn [andb].
+    assert (Q3 : match it_ev it with
+                 | ERet CWait (RChan x) =>
+                     implb (0 <? sum_deltas (it :: t)) (negb (memb x (snd (it_obs it))))
+                 | _ => true
+                 end = true).
+    { destruct (it_ev it) as [c|c r| |] eqn:Ev; auto. destruct c; auto. destruct r as [n|x|]; auto.
+      destruct (Z.ltb_spec 0 (sum_deltas (it :: t))) as [Z0|Z0]; [|reflexivity]. cbn [implb].
+      apply negb_true_iff. destruct (memb x (snd (it_obs it))) eqn:M; [|reflexivity].
+      exfalso. apply (H3 x eq_refl Z0). unfold memb in M. apply existsb_exists in M.
+      destruct M as (y & Hy & E). apply Nat.eqb_eq in E. subst. exact Hy. }
+    rewrite Q3. cbn [andb].
+    apply forallb_forall. intros [tid n] Hin. cbn [snd]. apply Nat.ltb_lt.
+    destruct (waits_exact _ Hwf _ _ Hin) as (Hc & Hn). specialize (Hw _ Hc). lia.
+  - cbn [implb andb].
+    replace (match it_ev it with ERet CWait (RChan _) => true | _ => true end) with true
+      by (destruct (it_ev it) as [c|c r| |]; auto; destruct c; auto; destruct r; auto).
+    cbn [andb].
+    apply forallb_forall. intros [tid n] Hin. cbn [snd]. apply Nat.ltb_lt.
+    destruct (waits_exact _ Hwf _ _ Hin) as (Hc & Hn). specialize (Hw _ Hc). lia.
+Qed.
+
+Theorem c02_ok_iff_spec : forall t, trace_wf t = true -> (c02_ok t = true <-> c02_spec t).
+Proof. intros t H. split; [apply c02_ok_spec|apply c02_spec_ok; exact H]. Qed.
